@@ -831,3 +831,24 @@ func AnnounceBasicTaskTerminated(m *FakeMaster, taskID string, exitCode int, vol
 	})
 	m.SendUpdate(taskID, final, nil, mesos.SOURCE_EXECUTOR)
 }
+
+// OfferCount returns the number of offers sent so far (offer ids are offer-1 … offer-N).
+func (m *FakeMaster) OfferCount() int {
+	m.mu.Lock()
+	defer m.mu.Unlock()
+	return m.offerSeq
+}
+
+// OfferIDsSince lists the ids of the offers sent after the first n.
+func (m *FakeMaster) OfferIDsSince(n int) []string {
+	m.mu.Lock()
+	defer m.mu.Unlock()
+	var out []string
+	for i := n + 1; i <= m.offerSeq; i++ {
+		id := fmt.Sprintf("offer-%d", i)
+		if _, ok := m.offers[id]; ok {
+			out = append(out, id)
+		}
+	}
+	return out
+}
